@@ -283,6 +283,21 @@ F8g == {Prog("F8g", <<Set("X", 1), Set("Y", 2), S(Asg("=", r, l)), S(Asg("=", Va
 F8h == UNION {{Prog("F8h", <<S(Asg("=", r, e)), S(Asg("=", r, v)), S(Asg("=", Var("b"), r))>>) : r \in {Var("X"), Var("Y"), Var("c")},
                 e \in {Bin(">>", v, Num(1)), Bin("<<", v, Num(1)), Bin(">>", v, Num(2)), Bin("+", v, Num(1)), Bin("&", v, Num(3)), Un("-", v), Un("~", v), Bin("^", v, Var("b"))}} :
               v \in {Var("sa"), Var("a"), Idx("arr", Num(1)), Idx("sarr", Num(0))}}
+\* FP: C precedence and associativity in statements: three operands and two binary operators WRITTEN WITHOUT PARENTHESES
+\* (flat |-> TRUE makes the driver print the node without parentheses); the tree is the one the C grammar prescribes:
+\* the tighter operator groups first, equal levels group to the left.  Also unary operators next to binary ones.
+CPrec(o) == CASE o \in {"*", "/"} -> 10 [] o \in {"+", "-"} -> 9 [] o \in {"<<", ">>"} -> 8 [] o \in {"<", "<=", ">", ">="} -> 7 [] o \in {"==", "!="} -> 6
+              [] o = "&" -> 5 [] o = "^" -> 4 [] o = "|" -> 3 [] o = "&&" -> 2 [] o = "||" -> 1
+FBin(op, l, r) == [k |-> "bin", op |-> op, l |-> l, r |-> r, flat |-> TRUE]
+FUn(op, e) == [k |-> "un", op |-> op, e |-> e, flat |-> TRUE]
+CTree(x, o1, y, o2, z) == IF CPrec(o1) >= CPrec(o2) THEN FBin(o2, FBin(o1, x, y), z) ELSE FBin(o1, x, FBin(o2, y, z))
+POps == {"+", "-", "&", "|", "^", "==", "!=", "<", ">=", "&&", "||"}
+FP == {Prog("FP", <<S(Asg("=", d, CTree(x, o1, Var("b"), o2, z)))>>) : d \in {Var("c")}, x \in {Var("a"), Num(5)}, z \in {Var("X"), Num(2)}, o1 \in POps, o2 \in POps}
+      \cup {Prog("FP", <<S(Asg("=", Var("c"), CTree(Var("a"), o1, Var("b"), sh, Num(n))))>>) : o1 \in {"+", "-", "&", "|", "^", "<", "=="}, sh \in {"<<", ">>"}, n \in {1, 2}}
+      \cup {Prog("FP", <<S(Asg("=", Var("c"), CTree(Var("a"), sh, Num(1), o2, Var("b"))))>>) : o2 \in {"+", "-", "&", "|", "^", "<", "=="}, sh \in {"<<", ">>"}}
+      \cup {Prog("FP", <<S(Asg("=", Var("c"), FBin(o, FUn(u, Var("a")), Var("b"))))>>) : u \in {"-", "~", "!"}, o \in {"+", "-", "&", "|", "==", "<"}}
+      \cup {Prog("FP", <<S(Asg("=", Var("c"), FBin(o, Var("b"), FUn(u, Var("a")))))>>) : u \in {"-", "~", "!"}, o \in {"+", "-", "&", "|", "==", "<"}}
+      \cup {Prog("FP", <<If(CTree(Var("a"), o1, Var("b"), o2, Var("X")), <<Set("c", 1)>>, <<Set("c", 2)>>)>>) : o1 \in POps, o2 \in POps}
 \* F8f: flags beliefs: a constant is stored, something that sets the flags differently follows, the same constant is
 \* stored again (so that its load is redundant for the accumulator but not for the flags) and tested at once
 FlagMod == {S(Inc(FALSE, 1, Var("X"))), S(Inc(FALSE, -1, Var("Y"))), S(Asg("=", Var("X"), Num(3))), S(Asg("=", Var("Y"), Var("c"))), S(Inc(FALSE, 1, Var("c"))),
@@ -346,7 +361,7 @@ RW == {Pair2("commute", <<S(Asg("=", d, Bin(op, l, r)))>>, <<S(Asg("=", d, Bin(o
       \cup {Pair2("callbody", <<S(Asg("=", d, Call("g", <<x, y>>)))>>, <<S(Asg("=", d, Bin("-", x, y)))>>) : d \in {Var("a"), Var("Y")}, x \in Arg, y \in {Var("b"), Num(1)}}
       \cup {Pair2("callbody", <<S(Call("h", <<>>)), S(Asg("=", Var("b"), Var("a")))>>, <<S(Inc(FALSE, 1, Var("a"))), S(Asg("=", Var("b"), Var("a")))>>)}
       \cup {Pair2("callbody", <<S(Call("w", <<x>>))>>, <<S(Asg("=", Var("c"), x))>>) : x \in Arg}
-AllFams == FW \cup F3d \cup F4b \cup F5d \cup F8f \cup F8h \cup F8g \cup FL \cup F5c \cup F6 \cup F8 \cup F9 \cup F1a \cup F1b \cup F1c \cup F1d \cup F1e \cup F1f \cup F1g \cup F2a \cup F2b \cup F2c \cup F2z \cup F2s
+AllFams == FP \cup FW \cup F3d \cup F4b \cup F5d \cup F8f \cup F8h \cup F8g \cup FL \cup F5c \cup F6 \cup F8 \cup F9 \cup F1a \cup F1b \cup F1c \cup F1d \cup F1e \cup F1f \cup F1g \cup F2a \cup F2b \cup F2c \cup F2z \cup F2s
            \cup F3a \cup F3b \cup F3c \cup F4 \cup F5a \cup F5b \cup F7a \cup F7b \cup F7c
 Family ==
   CASE Fam = "ALL" -> AllFams [] Fam = "RW" -> RW [] Fam = "FX" -> FX \cup FS
@@ -355,7 +370,7 @@ Family ==
     [] Fam = "F2a" -> F2a [] Fam = "F2b" -> F2b [] Fam = "F2c" -> F2c [] Fam = "F2z" -> F2z [] Fam = "F2s" -> F2s
     [] Fam = "F3a" -> F3a [] Fam = "F3b" -> F3b [] Fam = "F3c" -> F3c
     [] Fam = "F4" -> F4 [] Fam = "F5a" -> F5a [] Fam = "F5b" -> F5b
-    [] Fam = "F7a" -> F7a [] Fam = "F7b" -> F7b [] Fam = "F7c" -> F7c [] Fam = "FW" -> FW [] Fam = "FL" -> FL [] Fam = "F5c" -> F5c [] Fam = "F6" -> F6 [] Fam = "F8" -> F8 [] Fam = "F8g" -> F8g [] Fam = "F8f" -> F8f [] Fam = "F3d" -> F3d [] Fam = "F4b" -> F4b [] Fam = "F5d" -> F5d [] Fam = "F9" -> F9
+    [] Fam = "F7a" -> F7a [] Fam = "F7b" -> F7b [] Fam = "F7c" -> F7c [] Fam = "FW" -> FW [] Fam = "FL" -> FL [] Fam = "F5c" -> F5c [] Fam = "F6" -> F6 [] Fam = "F8" -> F8 [] Fam = "F8g" -> F8g [] Fam = "FP" -> FP [] Fam = "F8f" -> F8f [] Fam = "F3d" -> F3d [] Fam = "F4b" -> F4b [] Fam = "F5d" -> F5d [] Fam = "F9" -> F9
 
 VARIABLE prog
 Init == prog \in Family
